@@ -87,6 +87,9 @@ def build_shape(shape, lay, base):
     assert rq("PROPPATCH", "/user/plain/", data=PROPPATCH % "plain", login=L)[0] == 207
     assert rq("PROPFIND", "/user2/", login="user2:", HTTP_DEPTH="0")[0] == 207
     assert rq("PROPPATCH", "/user2/", data=PROPPATCH % "second", login="user2:")[0] == 207
+    # a legal collection name that CONTAINS a reserved name (substring tests on paths must not take it for a cache folder)
+    assert rq("MKCALENDAR", "/user/old.Radicale.cache/", login=L)[0] == 201
+    assert rq("PUT", "/user/old.Radicale.cache/o1.ics", data=EV("o1"), login=L)[0] == 201
     if shape in ("residue",):
         # a deleted item leaves a history entry; make it (and one more) look expired
         assert rq("PUT", "/user/cal/old1.ics", data=EV("old1"), login=L)[0] == 201
@@ -227,6 +230,34 @@ def extra_requests():
     }
 
 
+def names_requests():
+    """C12: legal names that contain the text of a reserved name (`.Radicale.cache`, `.Radicale.tmp-`, `.Radicale.props`)"""
+    return {
+        "put_cachename_item": dict(method="PUT", path="/user/cal/ev.Radicale.cache.ics", data=EV("evc"), login=L, kind="RPutItem",
+                                   coll="user/cal", href="ev.Radicale.cache.ics"),
+        "put_tmpname_item": dict(method="PUT", path="/user/cal/ev.Radicale.tmp-x.Radicale.props.ics", data=EV("evt"), login=L, kind="RPutItem",
+                                 coll="user/cal", href="ev.Radicale.tmp-x.Radicale.props.ics"),
+        "put_in_cachecoll": dict(method="PUT", path="/user/old.Radicale.cache/n2.ics", data=EV("n2c"), login=L, kind="RPutItem",
+                                 coll="user/old.Radicale.cache", href="n2.ics"),
+        "proppatch_cachecoll": dict(method="PROPPATCH", path="/user/old.Radicale.cache/", data=PROPPATCH % "c", login=L, kind="RPropPatch",
+                                    coll="user/old.Radicale.cache"),
+        "delete_in_cachecoll": dict(method="DELETE", path="/user/old.Radicale.cache/o1.ics", login=L, kind="RDeleteItem",
+                                    coll="user/old.Radicale.cache", href="o1.ics"),
+    }
+
+
+def nofsync_requests():
+    """C02: [storage] _filesystem_fsync = False (the setting of the test-suite and of 'fast' deployments): no durability, but a
+    killed process must still leave before or after.  No model request (the model has the fsync steps): monitor only, every boundary."""
+    N = dict(login=L, kind="MonitorOnly", fsync=False)
+    return {
+        "nofsync_put_over": dict(N, method="PUT", path="/user/cal/e1.ics", data=EV("e1", "nf"), coll="user/cal"),
+        "nofsync_put_new": dict(N, method="PUT", path="/user/cal/nf1.ics", data=EV("nf1"), coll="user/cal"),
+        "nofsync_proppatch": dict(N, method="PROPPATCH", path="/user/cal/", data=PROPPATCH % "nf", coll="user/cal"),
+        "nofsync_mkcalendar": dict(N, method="MKCALENDAR", path="/user/nfcal/", coll="user/nfcal"),
+    }
+
+
 def startup_requests():
     """First start on a storage location that does not exist yet (nested): the start-up belongs to the traced history."""
     return {
@@ -243,6 +274,8 @@ def all_ops():
     d = op_requests()
     d.update(guard_requests())
     d.update(extra_requests())
+    d.update(names_requests())
+    d.update(nofsync_requests())
     d.update(startup_requests())
     d.update(EXTRA_OPS)
     return d
@@ -264,14 +297,14 @@ FOLLOWUP_EXPECT = [207, 201, 200, 207]
 
 
 def run_driver(case_dir, folder, conf, op, inject=None, list_before=(), list_after=(), timeout=120, followups=(),
-               calls=None, strsize=70000, fsize=None, startup=False):
+               calls=None, strsize=70000, fsize=None, startup=False, fsync=True):
     spec = os.path.join(case_dir, "spec.json")
     outp = os.path.join(case_dir, "out.json")
     tr = os.path.join(case_dir, "trace.txt")
     for f in (outp, tr):
         if os.path.exists(f):
             os.remove(f)
-    json.dump(dict(folder=folder, conf=conf, fsync=True, request=http_of(op), list_before=list(list_before),
+    json.dump(dict(folder=folder, conf=conf, fsync=fsync, request=http_of(op), list_before=list(list_before),
                    list_after=list(list_after), followups=list(followups), fsize=fsize, startup=startup), open(spec, "w"))
     cmd = ["strace", "-f", "-y", "-s", str(strsize), "-e", "trace=" + (calls or X.TRACE_CALLS), "-o", tr]
     if not (inject and "signal=" in inject):
@@ -351,7 +384,8 @@ def unfaulted(base, shape, lay, opname):
     lb = ["collection-root/" + coll]
     if op.get("coll2"):
         lb.append("collection-root/" + op["coll2"])
-    rc, txt, out, tr = run_driver(c["case_dir"], folder, c["conf"], op, list_before=lb, list_after=["collection-root/" + coll])
+    rc, txt, out, tr = run_driver(c["case_dir"], folder, c["conf"], op, list_before=lb, list_after=["collection-root/" + coll],
+                                  fsync=op.get("fsync", True))
     if out is None:
         return dict(error="driver failed rc=%s %s" % (rc, txt[-800:]), **{k: c[k] for k in ("shape", "lay", "opname")})
     events = trace.parse(tr)
@@ -374,7 +408,8 @@ def unfaulted(base, shape, lay, opname):
     try:
         c2 = prepare_case(base, shape, lay, opname, tag="-rd")
         rc2, txt2, out2, tr2 = run_driver(c2["case_dir"], c2["folder"], c2["conf"], op, list_before=lb,
-                                          list_after=["collection-root/" + coll], calls=RD_CALLS, strsize=RD_STR)
+                                          list_after=["collection-root/" + coll], calls=RD_CALLS, strsize=RD_STR,
+                                          fsync=op.get("fsync", True))
         if out2 is None or out2.get("status") != out.get("status"):
             rerr = "read-site discovery run differs: status %s vs %s" % ((out2 or {}).get("status"), out.get("status"))
         else:
@@ -496,7 +531,7 @@ def inject_run(job):
                                   list_before=job.get("list_before", ()), list_after=job.get("list_after", ()),
                                   followups=FOLLOWUPS if mode != "crash" else (),
                                   calls=RD_CALLS if job.get("rd") else None, strsize=RD_STR if job.get("rd") else 70000,
-                                  fsize=ordinal if mode == "short" else None)
+                                  fsize=ordinal if mode == "short" else None, fsync=op.get("fsync", True))
     res = dict(tag=job["tag"], status=(out or {}).get("status"), killed=out is None, problems=[], hit=False)
     # did the injection hit the intended call?
     hit_line = None
@@ -603,6 +638,21 @@ def inject_run(job):
         extra = {k: v for k, v in a2.items() if k not in ("user/abook/zz-followup.vcf",)}
         if extra != a:
             res["problems"].append("follow-up requests changed other data")
+        # the names the request was about stay usable: a collection that is absent now can be created, filled and
+        # deleted again -- twice (whatever the interrupted request left behind must not wedge its name)
+        for coll in [x for x in (op.get("coll"), op.get("coll2")) if x and "/" in x]:
+            if os.path.lexists(os.path.join(folder, "collection-root", coll)):
+                continue
+            if not os.path.isdir(os.path.join(folder, "collection-root", os.path.dirname(coll))):
+                continue
+            for rnd in (1, 2):
+                seq = [srv.request("MKCALENDAR", "/%s/" % coll, login=L)[0],
+                       srv.request("PUT", "/%s/zz-again.ics" % coll, data=EV("zzagain"), login=L)[0],
+                       srv.request("DELETE", "/%s/" % coll, login=L)[0]]
+                if seq != [201, 201, 200]:
+                    res["problems"].append("the name %s is not usable any more: MKCALENDAR / PUT / DELETE of a new collection of that "
+                                           "name (round %d) answered %s (expected [201, 201, 200])" % (coll, rnd, seq))
+                    break
     except Exception as ex:  # a wedged or unreadable store
         res["problems"].append("fresh server over the surviving tree fails: %r" % (ex,))
     shutil.rmtree(c["case_dir"], ignore_errors=True)
